@@ -80,7 +80,8 @@ Print Assumptions C16_replace.
 
 (* ---- RefCountedSink ----------------------------------------------------------------------------- *)
 
-(* After every history of Open/Close/requests by any holders, for every next call:
+(* After every history of Open/Close/requests by any holders and of state changes of the underlying sink
+   (REnv: it faults, reports Closed, ... - Open/Close do not look at it), for every next call:
    the underlying Open is called exactly at the 0 -> 1 transition, the underlying Close exactly at the
    1 -> 0 transition, a Close at count 0 changes nothing and calls nothing, every Open returns the
    result of the underlying open in force, and over the whole history
@@ -183,11 +184,12 @@ Example C16_example_replace :
   /\ closed (fst (run init [Req false; OpenDone 0 true; Resume 0; Fault 0])) 0.
 Proof. split; vm_compute; reflexivity. Qed.
 
-(* ref counting with two holders and a surplus close (a well-behaved history) *)
+(* ref counting with two holders, the connection failing while both hold it, and a surplus close
+   (a well-behaved history) *)
 Example C16_example_refcount :
-  snd (rrun rinit [ROpen 1; ROpen 2; RClose 1; RClose 2; RClose 2; ROpen 3])
-  = [[UOpen 0; URet (Some 0)]; [URet (Some 0)]; []; [UClose]; []; [UOpen 1; URet (Some 1)]]%Z
-  /\ wellbehaved [] [ROpen 1; ROpen 2; RClose 1; RClose 2; RClose 2; ROpen 3]%Z.
+  snd (rrun rinit [ROpen 1; ROpen 2; REnv 4; RClose 1; RClose 2; RClose 2; ROpen 3])
+  = [[UOpen 0; URet (Some 0)]; [URet (Some 0)]; []; []; [UClose]; []; [UOpen 1; URet (Some 1)]]%Z
+  /\ wellbehaved [] [ROpen 1; ROpen 2; REnv 4; RClose 1; RClose 2; RClose 2; ROpen 3]%Z.
 Proof. split; [vm_compute; reflexivity | cbn; intuition]. Qed.
 
 (* same key while a holder lives, a new sink after the last holder is gone *)
